@@ -70,6 +70,18 @@ Notation "p >>= f" := (bind p f) (at level 62, left associativity).
 Definition ret {A} (v : A) (rest : bytes) : sres A := SOk v rest O.
 
 (* Decoder.LiteralReader on the server side: (size, nonSync), rest after the CRLF *)
+(* the rest of the current line (up to CR or LF) ends with "+}" *)
+Definition partial_header_nonsync (s : bytes) : bool :=
+  let fix line (s : bytes) : bytes :=
+    match s with
+    | [] => []
+    | c :: r => if beqb c CR_ || beqb c LF_ then [] else c :: line r
+    end in
+  match rev (line s) with
+  | c1 :: c2 :: _ => (b2n c1 =? 125) && (b2n c2 =? 43)
+  | _ => false
+  end.
+
 Definition lit_header (s : bytes) : sres (N * bool) :=
   match dec_special (ch "{") s with
   | DErr => SErr 3 false O s
@@ -88,7 +100,11 @@ Definition lit_header (s : bytes) : sres (N * bool) :=
           | DNo r' => SErr 2 false O r'
           | DErr => SErr 3 false O r2
           end
-      | DNo r' => SErr (io_or_syntax r') false O r'
+      | DNo r' =>
+          (* the size is not a readable number (e.g. it overflows int64): Decoder.litHeader stays
+             set, and DiscardLine treats a line that then ends in "+}" as an announced
+             non-synchronising literal: the connection is closed after the response *)
+          SErr (io_or_syntax r') (partial_header_nonsync r') O r'
       | DErr => SErr 3 false O r
       end
   end.
@@ -411,6 +427,9 @@ Definition read_command (cfg : fcfg) (f : fstate) (total : N) (s : bytes) : fsta
       | DOk _ r2 =>
           match dec_atom r2 with
           | DOk name r3 =>
+              (* a tag containing "+" is refused like an unreadable one (its tagged response would
+                 read as a continuation request): the connection ends *)
+              if existsb (fun b => b2n b =? 43) tag then (f0, None) else
               (* "UID" prefix: SP atom; the commands modelled here have no UID form *)
               let nr :=
                 if bytes_eqb (ascii_upper name) (s2b "UID") then
